@@ -91,70 +91,78 @@ WSel0(w, k)   == IF k < WZeros(w) THEN vec.p0[Rank0(64 * w) + k + 1] - 64 * w EL
 
 (* ------------------------------------------------------------------------- *)
 (* contract actions (batch events).  which \in {"rank1","rank0"} resp.       *)
-(* {"select1","select0"}; r is the sequence of returned answers.             *)
+(* {"select1","select0"}; r is the sequence of returned answers.  Each action *)
+(* is  <answers allowed by the definition> /\ UNCHANGED vec; the first       *)
+(* conjunct is named ...OK so that the known-finding guards can refer to it.  *)
+(* Answers the harness could not project into a position are logged as        *)
+(* Malformed (a bulk call answering Ok with a wrong number of results) or     *)
+(* Huge (a value >= 10^9, e.g. a wrapped subtraction); neither is ever equal  *)
+(* to a defined answer.                                                       *)
+Malformed == -2
+Huge == 1000000000
 
 (* answers for EVERY position 0..len *)
-RankAll(which, r) ==
+RankAllOK(which, r) ==
     /\ Len(r) = N + 1
     /\ \A p \in 0..N : r[p + 1] = Rank(which, p)
-    /\ UNCHANGED vec
+RankAll(which, r) == RankAllOK(which, r) /\ UNCHANGED vec
 (* answers for the listed positions (large vectors: block boundaries +-1 and random ones) *)
-RankAt(which, at, r) ==
+RankAtOK(which, at, r) ==
     /\ Len(r) = Len(at)
     /\ \A j \in 1..Len(at) : at[j] \in 0..N /\ r[j] = Rank(which, at[j])
-    /\ UNCHANGED vec
+RankAt(which, at, r) == RankAtOK(which, at, r) /\ UNCHANGED vec
 
 (* outcomes of select(k) for EVERY k \in 0..len: the position for k < count, refused for  *)
 (* every k >= count (k = count is always among them)                                      *)
-SelectAll(which, r) ==
+SelectAllOK(which, r) ==
     /\ Len(r) = N + 1
     /\ \A k \in 0..N : r[k + 1] = SelOutcome(which, k)
-    /\ UNCHANGED vec
-SelectAt(which, at, r) ==
+SelectAll(which, r) == SelectAllOK(which, r) /\ UNCHANGED vec
+SelectAtOK(which, at, r) ==
     /\ Len(r) = Len(at)
     /\ \A j \in 1..Len(at) : r[j] = SelOutcome(which, at[j])
-    /\ UNCHANGED vec
+SelectAt(which, at, r) == SelectAtOK(which, at, r) /\ UNCHANGED vec
 (* "select0 likewise WHERE OFFERED": an implementation that refuses every select0 does not *)
 (* offer it (counted as vacuous for that subject, never as a success)                      *)
-SelectNotOffered(which, r) ==
+SelectNotOfferedOK(which, r) ==
     /\ which = "select0"
     /\ \A j \in 1..Len(r) : r[j] = Refused
-    /\ UNCHANGED vec
+SelectNotOffered(which, r) == SelectNotOfferedOK(which, r) /\ UNCHANGED vec
 (* ONE call answering many k (bulk entry points, Result<Vec<_>>): succeeds with every     *)
 (* position when all k are valid, fails when some k >= count                              *)
-SelectBatch(which, at, ok, r) ==
+SelectBatchOK(which, at, ok, r) ==
     /\ ok = (\A j \in 1..Len(at) : at[j] < Cnt(which))
     /\ ok => /\ Len(r) = Len(at)
              /\ \A j \in 1..Len(at) : r[j] = Sel(which, at[j])
-    /\ UNCHANGED vec
+SelectBatch(which, at, ok, r) == SelectBatchOK(which, at, ok, r) /\ UNCHANGED vec
 
 (* get(i) for every i < len (0/1) *)
-GetAll(r) ==
+GetAllOK(r) ==
     /\ Len(r) = N
     /\ \A i \in 0..(N - 1) : r[i + 1] = Get(i)
-    /\ UNCHANGED vec
+GetAll(r) == GetAllOK(r) /\ UNCHANGED vec
 (* len / count_ones / count_zeros are exact *)
-Counts(len, ones, zeros) ==
-    /\ len = N /\ ones = Ones /\ zeros = Zeros
-    /\ UNCHANGED vec
+CountsOK(len, ones, zeros) == len = N /\ ones = Ones /\ zeros = Zeros
+Counts(len, ones, zeros) == CountsOK(len, ones, zeros) /\ UNCHANGED vec
 
 (* helpers answering rank/select questions on ONE 64-bit word (word w of the vector):     *)
 (* r[p+1] = ones among the first p bits of the word, p \in 0..64                          *)
-WordRank(w, r) ==
+WordRankOK(w, r) ==
     /\ Len(r) = 65
     /\ \A p \in 0..64 : r[p + 1] = WRank1(w, p)
-    /\ UNCHANGED vec
+WordRank(w, r) == WordRankOK(w, r) /\ UNCHANGED vec
 (* r[k+1] = outcome of select of the k-th one (k from 0; a 1-based API is asked k+1), k \in 0..64 *)
-WordSelect(which, w, r) ==
+WSel(which, w, k) == IF which = "select1" THEN WSel1(w, k) ELSE WSel0(w, k)
+WordSelectOK(which, w, r) ==
     /\ Len(r) = 65
     /\ which = "select0" => 64 * w + 64 <= N
-    /\ \A k \in 0..64 : r[k + 1] = IF which = "select1" THEN WSel1(w, k) ELSE WSel0(w, k)
-    /\ UNCHANGED vec
+    /\ \A k \in 0..64 : r[k + 1] = WSel(which, w, k)
+WordSelect(which, w, r) == WordSelectOK(which, w, r) /\ UNCHANGED vec
 (* popcount of every 64-bit word *)
-Popcounts(r) ==
+PopcountsOK(r) ==
     /\ Len(r) = (N + 63) \div 64
     /\ \A w \in 0..(Len(r) - 1) : r[w + 1] = WOnes(w)
-    /\ UNCHANGED vec
+Popcounts(r) == PopcountsOK(r) /\ UNCHANGED vec
 
 (* a constructor may refuse a vector (Err): nothing was built, nothing to check *)
 BuildRefused == UNCHANGED vec
